@@ -434,6 +434,30 @@ impl Client {
                 self.drain();
             }
             Gap::SleepMs(ms) => self.sleep_polling(*ms, 50).await,
+            Gap::Until { what, max_ms, hold } => {
+                crate::controller::with_current(|s| s.arm(*what, *hold));
+                let end = self.now_ms() + *max_ms;
+                loop {
+                    self.drain();
+                    if crate::controller::with_current(|s| s.trigger_fired()).unwrap_or(true) {
+                        self.count("probe.trace_trigger_hit");
+                        break;
+                    }
+                    let now = self.now_ms();
+                    if now >= end {
+                        self.count("probe.trace_trigger_timed_out");
+                        break;
+                    }
+                    let mut step = (end - now).min(50);
+                    if let Some(due) = self.next_due() {
+                        if due > now {
+                            step = step.min(due - now);
+                        }
+                    }
+                    let _ = tokio::time::timeout(Duration::from_millis(step.max(1)), crate::controller::TriggerFired).await;
+                }
+                crate::controller::with_current(|s| s.disarm());
+            }
             Gap::AdvanceMs(ms) => {
                 self.count("fault.clock_jump");
                 tokio::time::advance(Duration::from_millis(*ms)).await;
@@ -769,6 +793,7 @@ pub fn execute_opts(spec: &RunSpec, capture_sites: bool) -> Outcome {
     let shared: SharedRef = Rc::new(RefCell::new(Shared::new(spec.sched.clone(), spec.seed ^ spec.sched_salt.wrapping_mul(0x9e3779b97f4a7c15), spec.decisions.clone())));
     shared.borrow_mut().capture_backtraces = capture_sites;
     tokio::verif_seam::install(Box::new(SimController(shared.clone())));
+    crate::controller::set_current(Some(shared.clone()));
 
     let rt = tokio::runtime::Builder::new_current_thread()
         .enable_time()
@@ -897,6 +922,7 @@ pub fn execute_opts(spec: &RunSpec, capture_sites: bool) -> Outcome {
     let frozen_lock_events = shared.borrow().stats.lock_events;
     drop(rt);
     let _ = tokio::verif_seam::uninstall();
+    crate::controller::set_current(None);
     out.panics = simcore::panics::take();
 
     let mut s = shared.borrow_mut();
